@@ -130,14 +130,15 @@ func (s *packetManager) workerChan(runWorker func(chan orderedRequest),
 				s.incomingPacket(pkt)
 				rwChan <- pkt
 				continue
-			case *sshFxpClosePacket:
-				// wait for reads/writes to finish when file is closed
+			case *sshFxpClosePacket, *sshFxpFstatPacket, *sshFxpFsetstatPacket:
+				// requests on a handle are applied in the order received:
+				// wait for reads/writes to finish when file is closed (or its attributes are read or set)
 				// incomingPacket() call must occur after this
 				s.working.Wait()
 				s.incomingPacket(pkt)
 				cmdChan <- pkt
-				// and wait for the close itself before dispatching what follows it:
-				// a read or write sent after the close must find the handle gone
+				// and wait for the request itself before dispatching what follows it:
+				// a read or write sent after a close must find the handle gone
 				s.working.Wait()
 				continue
 			}
